@@ -53,6 +53,7 @@ def symbolic_function(
 
     @wraps(function)
     def wrapper(*args, **kwargs) -> Optional[Any]:
+        inspect.signature(function).bind(*args, **kwargs)
         all_kwargs = merge_args_and_kwargs(function, args, kwargs, ignore_first=False)
         if _any_of_the_kwargs_is_a_variable(all_kwargs):
             return Variable(
@@ -85,6 +86,7 @@ class Predicate(Symbol, ABC):
     is_expensive: ClassVar[bool] = False
 
     def __new__(cls, *args, **kwargs):
+        inspect.signature(cls.__init__).bind(None, *args, **kwargs)
         all_kwargs = merge_args_and_kwargs(
             cls.__init__, args, kwargs, ignore_first=True
         )
